@@ -24,6 +24,7 @@ RULE = (
     "distinct key = (options, types, mode)."
 )
 ASSUMPTIONS = [
+    "cases with image dilation > 1 run in an isolated child process because the XLA CPU compiler aborts (CHECK failure) on a small fraction of dilated convolutions; aborted cases are excluded and listed under coverage.process_aborts_in_native_code",
     "float32 arithmetic exact below 2^24 (asserted)",
     "reference action is independent of the library (gv.ref.core.action, self-tested)",
     "stride is 1 (the property is stated at unit stride)",
@@ -43,6 +44,12 @@ def _inv_filters(d, M, k, p):
         fl = geom.get_unique_invariant_filters(M, k, p, d, ops, scale="one")
         _FILTER_CACHE[key] = [np.asarray(f.data, dtype=np.float64) for f in fl]
     return _FILTER_CACHE[key]
+
+
+def is_risky(case):
+    """Image dilation > 1: run in the isolated child (the XLA CPU compiler aborts on some dilated convolutions)."""
+    lhs = case["opts"]["lhs"]
+    return lhs is not None and max(lhs) > 1
 
 
 def draw_case(data, tier):
